@@ -272,7 +272,7 @@ def run(ctx: core.Run):
                 continue
             if w * h <= 400 * 400:
                 fx_src.append(p)
-    dvs = c20_pool.descriptor_variants(fx_src, scratch, rng, 48 if quick else 400, src)
+    dvs = c20_pool.descriptor_variants(fx_src, scratch, rng, 64 if quick else 600, src)
     steps += [("composite", str(p)) for p, _ in dvs]
     ctx.extra["descriptor_variants"] = {"sources": [p.name for p in fx_src][:40], "made": len(dvs),
                                         "what": [w for _, w in dvs][:80]}
@@ -321,10 +321,19 @@ def run(ctx: core.Run):
     directed_fail = set()
     for st, leak in suspects:
         rest = [x for x in steps if x != st]
-        r = run_session([list(st)] + [list(x) for x in rest], timeout=1800)
-        bad = [(x, res) for x, res in zip(rest, r["results"][1:]) if res != alone_res[tuple(x)]]
+        # ... in front of ITSELF first (the state it leaves may be one only the same kind of session consumes: a shared
+        # random stream, a cache keyed by something of its own), then in front of the whole pool
+        r = run_session([list(st), list(st)] + [list(x) for x in rest], timeout=1800)
+        bad = [(x, res) for x, res in zip(rest, r["results"][2:]) if res != alone_res[tuple(x)]]
         ctx.hist("leaky_steps_followed_up", st[0])
-        if not bad:
+        if r["results"][1] != alone_res[tuple(st)]:
+            directed_fail.add(tuple(st))
+            ctx.fail(f"C20/history-dependent/{st[0]}/{_tag(st)}",
+                     f"{st[0]} gives a different result when the same session ran before it in the same interpreter "
+                     f"(it leaves {', '.join(leak)} changed) than alone in a fresh interpreter",
+                     _portable({"step": list(st), "history": [list(st)], "state_left_changed": list(leak)}),
+                     r["results"][1], alone_res[tuple(st)])
+        elif not bad:
             ctx.disagree("a session leaves process-wide state changed (no session of the pool was seen to depend on it)",
                          {"step": _short_step(st), "changed": list(leak)})
         for x, res in bad[:3]:
@@ -420,7 +429,7 @@ def run(ctx: core.Run):
         "snapshotted (psd_tools globals incl. plain values and function identities; attrs validators, numpy error state and "
         "print options, warnings filters, logging.disable and logger levels, recursion limit, sys.path, os.environ, cwd, "
         "locale, decimal context, gc, random states, builtins, PIL limits); a step that leaves anything changed when run alone "
-        "is replayed in front of the whole pool. Since round 4 the pool also holds: a call with ONE non-default option for every "
+        "is replayed in front of itself and of the whole pool. Since round 4 the pool also holds: a call with ONE non-default option for every "
         "public entry point of PSDImage / Layer that has options (open, save, new, frompil, composite, topil, numpy; options "
         "from the signature, from the documented **kwargs and from the low-level reader / writer signatures; values by the "
         "type of the default) - followed in the histories by the default calls on the other documents; composites of copies "
